@@ -989,9 +989,74 @@ def gen_cache_case(rng):
     return [rcfg, reqs, script, tail]
 
 
+def gen_targeted(rng, i):
+    """dense coverage of corners that random profiles reach only now and then"""
+    k = i % 6
+    if k == 0:
+        # back-off rounds inside several candidates: soft failures, then NXDOMAIN, repeatedly
+        n = rng.choice([1, 2])
+        servers = [[j, rng.choice([0, 2])] for j in range(n)]
+        rcfg = [servers, 2000, rng.choice([5000, 10000]), 1, 0, 0, rng.sample(SUFFIXES[:4], rng.choice([1, 2, 3])), ROOT, None]
+        req = [nm("host"), A, 1, 0, 1, None, 1, 0, 0]
+        script = []
+        for _ in range(rng.choice([2, 3, 4])):
+            for _ in range(rng.choice([n, 2 * n, 3 * n + 1])):
+                script.append([rng.choice([0, 5, 40]), gen_reply(rng, rng.choice(["servfail", "other", "timeout"]), A, 1, [])])
+            script.append([5, exh_reply("nx")])
+        return [rcfg, [req], script, [0, exh_reply(rng.choice(["answer", "nx", "servfail"]))]]
+    if k == 1:
+        # every exception class, UDP and TCP, one or two servers
+        servers = [[0, rng.choice([0, 2])], [1, rng.choice([0, 1, 3])]][: rng.choice([1, 2])]
+        rcfg = [servers, 1000, 3000, rng.randrange(2), 0, 0, [], ROOT, None]
+        req = [nm("host", "example", ""), A, 1, rng.randrange(2), 1, None, None, 0, 0]
+        script = [[rng.choice([0, 10]), rng.randrange(len(EXC))] for _ in range(rng.choice([1, 2, 3, 4]))]
+        return [rcfg, [req], script, [0, rng.choice([exh_reply("answer"), 12, 6])]]
+    if k == 2:
+        # negative replies: CNAME chain, then SOA at ancestors of the canonical name / of the question name
+        rcfg = [[[0, 0]], 2000, 5000, 0, rng.choice([1, 2]), 0, [], ROOT, None]
+        q = nm("www", "host", "example", "")
+        canon = nm("deep", "t1", "example", "")
+        soa_owner = rng.choice([canon, canon[1:], canon[2:], ROOT, q, q[1:], nm("t1", "example", ""), nm("other", "")])
+        ans = [[None, 1, CNAME, rng.choice(TTLS), canon]] if rng.random() < 0.7 else []
+        rcode = rng.choice([NOERROR, NXDOMAIN])
+        rep = [1, rcode, 1, ans, [[soa_owner, 1, SOA, rng.choice(TTLS), rng.choice(MINIMUMS)]]]
+        reqs = [[q, A, 1, 0, rng.randrange(2), None, None, 0, 0], [q, A, 1, 0, rng.randrange(2), None, None, rng.choice([0, 1000, 60000]), 0]]
+        return [rcfg, reqs, [[5, rep]], [5, exh_reply("answer")]]
+    if k == 3:
+        # duplicate candidate names (case variants in the search list), NXDOMAIN everywhere
+        sl = [nm("a", "example", ""), nm("A", "Example", ""), nm("a", "example", "")][: rng.choice([2, 3])]
+        rcfg = [[[0, 0], [1, 2]], 2000, 5000, 0, rng.choice([0, 1]), 0, sl, ROOT, rng.choice([None, 0, 2])]
+        req = [rng.choice([nm("host"), nm("Host")]), A, 1, 0, 1, None, 1, 0, 0]
+        script = [[5, exh_reply(rng.choice(["nx", "nx", "nx", "servfail", "malformed"]))] for _ in range(rng.choice([2, 3, 4, 5]))]
+        return [rcfg, [req, list(req)], script, [5, exh_reply(rng.choice(["nx", "answer"]))]]
+    if k == 4:
+        # unusable replies: not a response, question count, NXDOMAIN with an answer, long chains
+        rcfg = [[[0, 0], [1, 0], [2, 2]], 2000, 5000, 0, rng.choice([0, 1]), 0, [], ROOT, None]
+        req = [nm("host", "example", ""), rng.choice([A, CNAME]), 1, 0, 1, None, None, 0, 0]
+        bad = rng.choice([
+            [0, NOERROR, 1, [[None, 1, A, 300, 1]], []],
+            [1, NOERROR, rng.choice([0, 2]), [[None, 1, A, 300, 1]], []],
+            [1, NXDOMAIN, 1, [[None, 1, req[1], 300, nm("t3", "") if req[1] == CNAME else 1]], []],
+            [1, NOERROR, 1, gen_answer_rrs(rng, A, 1, rng.choice([15, 16, 17])), []],
+            [0, NXDOMAIN, 1, [], []],
+        ])
+        return [rcfg, [req], [[5, bad], [5, bad]], [5, exh_reply(rng.choice(["answer", "nx", "nodata"]))]]
+    # user-stored cache entries under the ANY key / the query key, NOERROR and NXDOMAIN
+    rcfg = [[[0, 0]], 2000, 5000, 0, rng.choice([1, 2]), 0, [nm("a", "example", "")], ROOT, None]
+    cand = nm("host", "a", "example", "")
+    pty = rng.choice([ANY, ANY, A])
+    rep = rng.choice([[1, NOERROR, 1, [], [[ROOT, 1, SOA, 300, 60]]], [1, NXDOMAIN, 1, [], [[ROOT, 1, SOA, 300, 60]]],
+                      [1, NOERROR, 1, [[None, 1, A if pty == ANY else pty, 300, 1]], []]])
+    reqs = [[cand, pty, 1, 0, 0, None, None, 0, 1], [nm("host"), A, 1, 0, rng.randrange(2), None, 1, rng.choice([0, 59999, 60000, 300000]), 0]]
+    return [rcfg, reqs, [[0, rep], [5, exh_reply(rng.choice(["nx", "answer"]))]], [5, exh_reply("answer")]]
+
+
 def cases(ctx):
     rng = ctx.rng
-    n = ctx.n(1200, 12000)
+    for i in range(ctx.n(360, 3000)):
+        ctx.count("profile:targeted")
+        yield "targeted-%d" % (i % 6), intern(gen_targeted(rng, i))
+    n = ctx.n(1000, 10000)
     profiles = ["mixed", "mixed", "soft", "hard", "search", "chain", "cache", "long-soft", "backwards", "cache"]
     for i in range(n):
         p = profiles[i % len(profiles)]
